@@ -104,6 +104,9 @@ def _worker(args):
                         ok, info = case.replay(_Cex(c.label, vals, c.detail, c.path, c.kind))
                 except Exception as e:
                     ok, info = False, f"replay raised {type(e).__name__}: {e}\n{traceback.format_exc()[-600:]}"
+                    # the symbolic run saw the real code raise this very exception type: the replay raising it again reproduces it
+                    if c.kind == "exception" and c.detail.startswith(type(e).__name__ + ":") and "/repo/" in traceback.format_exc():
+                        ok, info = True, f"real code raised {type(e).__name__}: {e} (as on the symbolic path)"
                 if ok:
                     c.values = vals
                     j = c.to_json()
